@@ -684,11 +684,8 @@ def main(argv):
         print("tier must be quick or thorough")
         return 2
     if argv[1] == "all":
-        worst = 0
-        for pid in sorted(PROPS):
-            rc = check_property(pid, tier, seed)
-            worst = max(worst, rc) if rc != 1 else 1 if worst != 1 else 1
-        return worst
+        rcs = [check_property(pid, tier, seed) for pid in sorted(PROPS)]
+        return 1 if 1 in rcs else (2 if 2 in rcs else 0)
     pid = argv[1]
     if pid not in PROPS:
         print("unknown property %s" % pid)
